@@ -25,6 +25,7 @@ Local Notation gm_ws := (@gm_ws S).
 Local Notation gm_in := (@gm_in S).
 Local Notation kprm := (@kprm S).
 Local Notation kres := (@kres S).
+Local Notation lg_ws := (@lg_ws S).
 
 (* ---------- lists: extensionality through nth_error ---------- *)
 Lemma nth_error_ext {X} (l l' : list X) : (forall i, nth_error l i = nth_error l' i) -> l = l'.
@@ -490,6 +491,8 @@ Definition core (j : nat) (w1 w2 : gm_ws) : Prop :=
   (forall k, g_s w1 k = g_s w2 k) /\
   Agr (fun r c => c < j /\ r <= SS c) (g_H w1) (g_H w2).
 
+Lemma upd_eq {X} (m : nat -> X) i v : upd m i v i = v.
+Proof. unfold upd. rewrite Nat.eqb_refl. reflexivity. Qed.
 Lemma upd_same {X} (ma mb : nat -> X) i v k : ma k = mb k -> upd ma i v k = upd mb i v k.
 Proof. unfold upd. destruct (Nat.eqb k i); auto. Qed.
 
@@ -504,7 +507,7 @@ Proof.
                 (fun k H => Cv k ltac:(apply in_seq in H; lia))) as (Ev & EH).
   destruct (mgs (g_v w1) j (seq 0 (SS j)) (g_H w1) vnew0) as [H1a v1a].
   destruct (mgs (g_v w2) j (seq 0 (SS j)) (g_H w2) vnew0) as [H1b v1b].
-  simpl in Ev, EH. subst v1b.
+  cbn [fst snd] in Ev, EH. subst v1b.
   set (hj1 := norm_b v1a).
   set (Q := fun r c : nat => c < SS j /\ r <= SS c).
   assert (A2 : Agr Q (updm H1a (SS j) j hj1) (updm H1b (SS j) j hj1)).
@@ -519,17 +522,159 @@ Proof.
     destruct (Cr k ltac:(lia)) as (E1 & E2). unfold Q. repeat split; try lia; assumption. }
   set (H3a := rot_col (g_cs w1) (g_sn w1) j (seq 0 j) (updm H1a (SS j) j hj1)) in *.
   set (H3b := rot_col (g_cs w2) (g_sn w2) j (seq 0 j) (updm H1b (SS j) j hj1)) in *.
-  rewrite <- (A3 j j ltac:(unfold Q; lia)), <- (A3 (SS j) j ltac:(unfold Q; lia)).
+  assert (Qjj : Q j j) by (unfold Q; split; auto with arith).
+  assert (Qsj : Q (SS j) j) by (unfold Q; split; auto with arith).
+  rewrite <- (A3 j j Qjj), <- (A3 (SS j) j Qsj).
   rewrite <- (Cs j), <- (Cs (SS j)).
-  destruct (gen_rot (H3a j j) (H3a (SS j) j)) as [c s]. unfold app_rot. simpl.
+  destruct (gen_rot (H3a j j) (H3a (SS j) j)) as [c s]. unfold app_rot.
+  cbn [fst snd g_v g_cs g_sn g_s g_H g_r g_z]. unfold core. cbn [fst snd g_v g_cs g_sn g_s g_H g_r g_z].
   repeat split; try reflexivity.
-  - intros k Hk. apply upd_same. apply Cv. lia. 
+  - intros k Hk. destruct (Nat.eq_dec k (SS j)) as [->|Nk]; [unfold upd; rewrite Nat.eqb_refl; reflexivity|].
+    apply upd_same. apply Cv. lia.
   - destruct (Nat.eq_dec k j) as [->|Nk]; [unfold upd; rewrite Nat.eqb_refl; reflexivity|].
     apply upd_same. apply Cr. lia.
   - destruct (Nat.eq_dec k j) as [->|Nk]; [unfold upd; rewrite Nat.eqb_refl; reflexivity|].
     apply upd_same. apply Cr. lia.
   - intro k. apply upd_same, upd_same, Cs.
   - apply agr_updm_same, agr_updm_same. exact A3.
+Qed.
+
+Definition agreeG (j : nat) (w1 w2 : gm_ws) : Prop := core j w1 w2 /\ g_r w1 = g_r w2.
+Definition agreeF (j : nat) (w1 w2 : gm_ws) : Prop :=
+  core j w1 w2 /\ forall k, k < j -> g_z w1 k = g_z w2 k.
+
+Lemma gm_body_agree (A P : vec -> vec) left j (w1 w2 : gm_ws) : agreeG j w1 w2 ->
+  agreeG (SS j) (fst (gm_body A P left w1 j)) (fst (gm_body A P left w2 j)) /\
+  snd (gm_body A P left w1 j) = snd (gm_body A P left w2 j).
+Proof.
+  intros (C & _). unfold gm_body.
+  assert (Ev : g_v w1 j = g_v w2 j) by (destruct C as (Cv & _); apply Cv; auto).
+  rewrite <- Ev. destruct (pspmv left A P (g_v w1 j)) as [vnew0 T].
+  match goal with |- agreeG _ (fst (arnoldi_tail ?a j vnew0)) (fst (arnoldi_tail ?b j vnew0)) /\ _ =>
+    assert (C' : core j a b) by exact C;
+    destruct (arnoldi_tail_core a b j vnew0 C') as (C1 & E & R1 & R2 & _) end.
+  split; [|exact E]. split; [exact C1|]. rewrite R1, R2. reflexivity.
+Qed.
+
+Lemma fg_body_agree (A P : vec -> vec) j (w1 w2 : gm_ws) : agreeF j w1 w2 ->
+  agreeF (SS j) (fst (fg_body A P w1 j)) (fst (fg_body A P w2 j)) /\
+  snd (fg_body A P w1 j) = snd (fg_body A P w2 j).
+Proof.
+  intros (C & Z). unfold fg_body.
+  assert (Ev : g_v w1 j = g_v w2 j) by (destruct C as (Cv & _); apply Cv; auto).
+  rewrite <- Ev.
+  match goal with |- agreeF _ (fst (arnoldi_tail ?a j ?vn)) (fst (arnoldi_tail ?b j ?vn)) /\ _ =>
+    assert (C' : core j a b) by exact C;
+    destruct (arnoldi_tail_core a b j vn C') as (C1 & E & _ & _ & Z1 & Z2) end.
+  split; [|exact E]. split; [exact C1|]. rewrite Z1, Z2. cbn [g_z].
+  intros k Hk. destruct (Nat.eq_dec k j) as [->|Nk]; [unfold upd; rewrite Nat.eqb_refl; reflexivity|].
+  apply upd_same. apply Z. lia.
+Qed.
+
+Lemma gm_inner_agree (R : nat -> gm_ws -> gm_ws -> Prop) (body : gm_ws -> nat -> gm_ws * S) maxiter M eps :
+  (forall j w1 w2, R j w1 w2 -> R (SS j) (fst (body w1 j)) (fst (body w2 j)) /\ snd (body w1 j) = snd (body w2 j)) ->
+  forall fuel w1 w2 j it, R j w1 w2 ->
+  let r1 := gm_inner body maxiter M eps fuel w1 j it in
+  let r2 := gm_inner body maxiter M eps fuel w2 j it in
+  n_j r1 = n_j r2 /\ n_it r1 = n_it r2 /\ n_oof r1 = n_oof r2 /\ R (n_j r1) (n_ws r1) (n_ws r2).
+Proof.
+  intro Hb. induction fuel as [|k IH]; intros w1 w2 j it HR; simpl;
+    destruct (Hb j w1 w2 HR) as (R' & E);
+    destruct (body w1 j) as [w1' i1], (body w2 j) as [w2' i2]; simpl in R', E; subst i2;
+    destruct (Nat.leb maxiter (SS it) || Nat.leb M (SS j) || negb (sltb eps i1)); simpl; auto.
+Qed.
+
+Lemma fold_sub_agree (Ha Hb : nat -> nat -> S) i si ks : forall sa sb : nat -> S,
+  (forall k, sa k = sb k) -> (forall k, In k ks -> Ha k i = Hb k i) ->
+  forall m, fold_left (fun acc k => upd acc k (acc k - Ha k i * si)) ks sa m
+          = fold_left (fun acc k => upd acc k (acc k - Hb k i * si)) ks sb m.
+Proof.
+  induction ks as [|k tl IH]; intros sa sb Es EH m; simpl; [apply Es|].
+  apply IH; [|intros k' H; apply EH; right; exact H].
+  intro k'. rewrite (Es k), (EH k (or_introl eq_refl)). apply upd_same, Es.
+Qed.
+
+Lemma backsub_agree (Ha Hb : nat -> nat -> S) j is : Agr (fun r c => c < j /\ r <= SS c) Ha Hb ->
+  (forall i, In i is -> i < j) -> forall sa sb : nat -> S, (forall k, sa k = sb k) ->
+  forall m, backsub Ha is sa m = backsub Hb is sb m.
+Proof.
+  intros HA. induction is as [|i tl IH]; intros Hi sa sb Es m; simpl; [apply Es|].
+  assert (Li : i < j) by (apply Hi; left; reflexivity).
+  apply IH; [intros i' H; apply Hi; right; exact H|].
+  rewrite (Es i), (HA i i ltac:(split; [exact Li | auto with arith])).
+  apply fold_sub_agree.
+  - intro k. apply upd_same, Es.
+  - intros k Hk. apply in_seq in Hk. apply HA. split; [exact Li|]. lia.
+Qed.
+
+Lemma cv_of_agree (sa sb : nat -> S) (va vb : nat -> vec) j :
+  (forall k, sa k = sb k) -> (forall k, k < j -> va k = vb k) -> cv_of sa va j = cv_of sb vb j.
+Proof.
+  intros Es Ev. unfold cv_of. apply map_ext_in. intros k Hk. apply in_seq in Hk.
+  rewrite Es, Ev by lia. reflexivity.
+Qed.
+
+Lemma rev_seq_lt j i : In i (rev (seq 0 j)) -> i < j.
+Proof. intro H. apply in_rev in H. apply in_seq in H. lia. Qed.
+
+Lemma k_axpby_zero (Hz : is_zero (@s0 S) = true) a (x y : vec) :
+  k_axpby a x s0 y = map (fun xi => a * xi) x.
+Proof. unfold k_axpby. rewrite Hz. reflexivity. Qed.
+
+Lemma gm_cycle_agree (Hz : is_zero (@s0 S) = true) (A P : vec -> vec) prm eps norm_r (x : vec) (w1 w2 : gm_ws) it :
+  g_r w1 = g_r w2 ->
+  fst (gm_cycle A P prm eps norm_r x w1 it) = fst (gm_cycle A P prm eps norm_r x w2 it) /\
+  n_it (snd (gm_cycle A P prm eps norm_r x w1 it)) = n_it (snd (gm_cycle A P prm eps norm_r x w2 it)) /\
+  n_oof (snd (gm_cycle A P prm eps norm_r x w1 it)) = n_oof (snd (gm_cycle A P prm eps norm_r x w2 it)).
+Proof.
+  intro Er. unfold gm_cycle. rewrite !(k_axpby_zero Hz), <- Er.
+  match goal with |- context [gm_inner ?b ?mx ?M ?e ?fu ?wa 0 it] =>
+    match goal with |- context [gm_inner b mx M e fu ?wb 0 it] =>
+      lazymatch wa with wb => fail | _ => idtac end;
+      assert (G0 : agreeG 0 wa wb);
+      [| pose proof (gm_inner_agree agreeG b mx M e (gm_body_agree A P (p_left prm)) fu wa wb 0 it G0) as (Ej & Ei & Eo & (C & Er')) ;
+         set (ra := gm_inner b mx M e fu wa 0 it) in *; set (rb := gm_inner b mx M e fu wb 0 it) in * ]
+    end end.
+  { split; [|reflexivity]. unfold core; cbn [g_v g_cs g_sn g_s g_H]. repeat split; try reflexivity; try lia.
+    - intros k Hk. assert (k = 0) by lia. subst. reflexivity.
+    - intros r c (Hc & _). lia. }
+  cbv zeta in *. destruct C as (Cv & _ & Cs & CH).
+  rewrite <- Ej.
+  assert (Esv : forall m, backsub (g_H (n_ws ra)) (rev (seq 0 (n_j ra))) (g_s (n_ws ra)) m
+                        = backsub (g_H (n_ws rb)) (rev (seq 0 (n_j ra))) (g_s (n_ws rb)) m).
+  { intro m. apply (backsub_agree _ _ (n_j ra)); [exact CH | apply rev_seq_lt | exact Cs]. }
+  assert (Ecv : cv_of (backsub (g_H (n_ws ra)) (rev (seq 0 (n_j ra))) (g_s (n_ws ra))) (g_v (n_ws ra)) (n_j ra)
+              = cv_of (backsub (g_H (n_ws rb)) (rev (seq 0 (n_j ra))) (g_s (n_ws rb))) (g_v (n_ws rb)) (n_j ra)).
+  { apply cv_of_agree; [exact Esv | intros k Hk; apply Cv; lia]. }
+  rewrite Ecv, Er'. destruct (p_left prm); cbn [fst snd n_it n_oof]; auto.
+Qed.
+
+Lemma fg_cycle_agree (A P : vec -> vec) prm eps norm_r (x : vec) (w1 w2 : gm_ws) it :
+  g_v w1 0 = g_v w2 0 ->
+  fst (fg_cycle A P prm eps norm_r x w1 it) = fst (fg_cycle A P prm eps norm_r x w2 it) /\
+  n_it (snd (fg_cycle A P prm eps norm_r x w1 it)) = n_it (snd (fg_cycle A P prm eps norm_r x w2 it)) /\
+  n_oof (snd (fg_cycle A P prm eps norm_r x w1 it)) = n_oof (snd (fg_cycle A P prm eps norm_r x w2 it)).
+Proof.
+  intro Ev. unfold fg_cycle. rewrite <- Ev.
+  match goal with |- context [gm_inner ?b ?mx ?M ?e ?fu ?wa 0 it] =>
+    match goal with |- context [gm_inner b mx M e fu ?wb 0 it] =>
+      lazymatch wa with wb => fail | _ => idtac end;
+      assert (G0 : agreeF 0 wa wb);
+      [| pose proof (gm_inner_agree agreeF b mx M e (fg_body_agree A P) fu wa wb 0 it G0) as (Ej & Ei & Eo & (C & Z)) ;
+         set (ra := gm_inner b mx M e fu wa 0 it) in *; set (rb := gm_inner b mx M e fu wb 0 it) in * ]
+    end end.
+  { split; [|intros k Hk; lia]. unfold core; cbn [g_v g_cs g_sn g_s g_H]. repeat split; try reflexivity; try lia.
+    - intros k Hk. assert (k = 0) by lia. subst. reflexivity.
+    - intros r c (Hc & _). lia. }
+  cbv zeta in *. destruct C as (Cv & _ & Cs & CH).
+  rewrite <- Ej.
+  assert (Esv : forall m, backsub (g_H (n_ws ra)) (rev (seq 0 (n_j ra))) (g_s (n_ws ra)) m
+                        = backsub (g_H (n_ws rb)) (rev (seq 0 (n_j ra))) (g_s (n_ws rb)) m).
+  { intro m. apply (backsub_agree _ _ (n_j ra)); [exact CH | apply rev_seq_lt | exact Cs]. }
+  assert (Ecv : cv_of (backsub (g_H (n_ws ra)) (rev (seq 0 (n_j ra))) (g_s (n_ws ra))) (g_z (n_ws ra)) (n_j ra)
+              = cv_of (backsub (g_H (n_ws rb)) (rev (seq 0 (n_j ra))) (g_s (n_ws rb))) (g_z (n_ws rb)) (n_j ra)).
+  { apply cv_of_agree; [exact Esv | exact Z]. }
+  rewrite Ecv. cbn [fst snd n_it n_oof]. auto.
 Qed.
 
 Opaque gm_cycle fg_cycle.
@@ -578,7 +723,66 @@ Proof.
       apply IH; [lia | lia | rewrite Hoof, Q2; reflexivity].
 Qed.
 
+Lemma gm_outer_agree (Hz : is_zero (@s0 S) = true) (A P : vec -> vec) prm (f : vec) eps nr fuel :
+  forall x (w1 w2 : gm_ws) it oof,
+  fst (gm_outer A P prm f eps nr fuel x w1 it oof) = fst (gm_outer A P prm f eps nr fuel x w2 it oof).
+Proof.
+  induction fuel as [|k IH]; intros x w1 w2 it oof; simpl.
+  - destruct (p_left prm); simpl; destruct (sltb _ eps || Nat.leb (p_maxiter prm) it); reflexivity.
+  - destruct (p_left prm) eqn:El; simpl.
+    + destruct (sltb _ eps || Nat.leb (p_maxiter prm) it); [reflexivity|].
+      match goal with |- context [gm_cycle A P prm eps ?nrm x ?wa it] =>
+        match goal with |- context [gm_cycle A P prm eps nrm x ?wb it] =>
+          lazymatch wa with wb => fail | _ => idtac end;
+          destruct (gm_cycle_agree Hz A P prm eps nrm x wa wb it eq_refl) as (E1 & E2 & E3);
+          destruct (gm_cycle A P prm eps nrm x wa it) as [xa ra], (gm_cycle A P prm eps nrm x wb it) as [xb rb] end end.
+      simpl in E1, E2, E3. subst xb. rewrite E2, E3. apply IH.
+    + destruct (sltb _ eps || Nat.leb (p_maxiter prm) it); [reflexivity|].
+      match goal with |- context [gm_cycle A P prm eps ?nrm x ?wa it] =>
+        match goal with |- context [gm_cycle A P prm eps nrm x ?wb it] =>
+          lazymatch wa with wb => fail | _ => idtac end;
+          destruct (gm_cycle_agree Hz A P prm eps nrm x wa wb it eq_refl) as (E1 & E2 & E3);
+          destruct (gm_cycle A P prm eps nrm x wa it) as [xa ra], (gm_cycle A P prm eps nrm x wb it) as [xb rb] end end.
+      simpl in E1, E2, E3. subst xb. rewrite E2, E3. apply IH.
+Qed.
+
+Lemma fg_outer_agree (A P : vec -> vec) prm (f : vec) eps nr fuel :
+  forall x (w1 w2 : gm_ws) it oof,
+  fst (fg_outer A P prm f eps nr fuel x w1 it oof) = fst (fg_outer A P prm f eps nr fuel x w2 it oof).
+Proof.
+  induction fuel as [|k IH]; intros x w1 w2 it oof; simpl.
+  - rewrite !upd_eq. destruct (sltb _ eps || Nat.leb (p_maxiter prm) it); reflexivity.
+  - rewrite !upd_eq.
+    destruct (sltb _ eps || Nat.leb (p_maxiter prm) it); [reflexivity|].
+    match goal with |- context [fg_cycle A P prm eps ?nrm x ?wa it] =>
+      match goal with |- context [fg_cycle A P prm eps nrm x ?wb it] =>
+        lazymatch wa with wb => fail | _ => idtac end;
+        destruct (fg_cycle_agree A P prm eps nrm x wa wb it ltac:(cbn [g_v]; rewrite !upd_eq; reflexivity)) as (E1 & E2 & E3);
+        destruct (fg_cycle A P prm eps nrm x wa it) as [xa ra], (fg_cycle A P prm eps nrm x wb it) as [xb rb] end end.
+    simpl in E1, E2, E3. subst xb. rewrite E2, E3. apply IH.
+Qed.
+
 Transparent gm_cycle fg_cycle.
+
+Theorem gmres_junk_independent (Hz : is_zero (@s0 S) = true) (A P : vec -> vec) prm (f x0 : vec) (j1 j2 : gm_ws) :
+  fst (gmres A P prm f x0 j1) = fst (gmres A P prm f x0 j2).
+Proof.
+  unfold gmres. destruct (k_prologue norm_b prm f) as [nr|nr]; [reflexivity|].
+  pose proof (gm_outer_agree Hz A P prm f (smax (p_tol prm * nr) (p_abstol prm)) nr (SS (p_maxiter prm)) x0 j1 j2 0 false) as E.
+  destruct (gm_outer A P prm f _ nr (SS (p_maxiter prm)) x0 j1 0 false) as [r1 w1].
+  destruct (gm_outer A P prm f _ nr (SS (p_maxiter prm)) x0 j2 0 false) as [r2 w2].
+  simpl in E. subst. reflexivity.
+Qed.
+
+Theorem fgmres_junk_independent (A P : vec -> vec) prm (f x0 : vec) (j1 j2 : gm_ws) :
+  fst (fgmres A P prm f x0 j1) = fst (fgmres A P prm f x0 j2).
+Proof.
+  unfold fgmres. destruct (k_prologue norm_b prm f) as [nr|nr]; [reflexivity|].
+  pose proof (fg_outer_agree A P prm f (smax (p_tol prm * nr) (p_abstol prm)) nr (SS (p_maxiter prm)) x0 j1 j2 0 false) as E.
+  destruct (fg_outer A P prm f _ nr (SS (p_maxiter prm)) x0 j1 0 false) as [r1 w1].
+  destruct (fg_outer A P prm f _ nr (SS (p_maxiter prm)) x0 j2 0 false) as [r2 w2].
+  simpl in E. subst. reflexivity.
+Qed.
 
 Theorem gmres_result_spec (A P : vec -> vec) prm (f x0 : vec) junk nr r w :
   k_prologue norm_b prm f = Go nr ->
@@ -644,6 +848,62 @@ Proof.
   intros Hp Hc. unfold fgmres. rewrite Hp. simpl. unfold true_res in Hc.
   unfold upd at 1. simpl. rewrite Hc. simpl. eexists; reflexivity.
 Qed.
+
+(* ============================ LGMRES ============================== *)
+Lemma lg_cycle_spec (A P : vec -> vec) prm eps norm_r (x : vec) (w : lg_ws) it n_outer :
+  it < p_maxiter prm ->
+  let c := lg_cycle A P prm eps norm_r x w it n_outer in
+  it < y_it c <= p_maxiter prm /\ y_oof c = false.
+Proof.
+  intro Hit. unfold lg_cycle. cbv zeta.
+  match goal with |- context [gm_inner ?b ?mx ?M ?e ?fu ?w1 0 it] =>
+    pose proof (gm_inner_spec b mx M e fu w1 0 it Hit ltac:(lia)) as Q; simpl in Q;
+    set (r := gm_inner b mx M e fu w1 0 it) in * end.
+  destruct (p_left prm); [|destruct (Nat.leb _ 0)];
+    match goal with |- context [if ?c then _ else _] => destruct c end; simpl; exact Q.
+Qed.
+
+Opaque lg_cycle.
+Lemma lg_outer_spec (A P : vec -> vec) prm (f : vec) eps nr fuel : forall x (w : lg_ws) it n_outer oof r w',
+  it <= p_maxiter prm -> p_maxiter prm < it + fuel -> oof = false ->
+  lg_outer A P prm f eps nr fuel x w it n_outer oof = (r, w') ->
+  k_it r <= p_maxiter prm /\ k_oof r = false /\
+  k_res r = true_res norm_b A P (p_left prm) f (k_x r) / nr.
+Proof.
+  induction fuel as [|k IH]; intros x w it n_outer oof r w' Hit Hfu Hoof; simpl.
+  - destruct (sltb _ eps || Nat.leb (p_maxiter prm) it) eqn:E.
+    + intro H; inversion H; subst; simpl. repeat split; auto.
+      unfold true_res. destruct (p_left prm); reflexivity.
+    + exfalso. apply Bool.orb_false_iff in E as [_ E]. apply Nat.leb_gt in E. lia.
+  - destruct (sltb _ eps || Nat.leb (p_maxiter prm) it) eqn:E.
+    + intro H; inversion H; subst; simpl. repeat split; auto.
+      unfold true_res. destruct (p_left prm); reflexivity.
+    + apply Bool.orb_false_iff in E as [_ E]. apply Nat.leb_gt in E.
+      match goal with |- context [lg_cycle A P prm eps ?nrm x ?w0 it n_outer] =>
+        pose proof (lg_cycle_spec A P prm eps nrm x w0 it n_outer E) as Q;
+        set (c := lg_cycle A P prm eps nrm x w0 it n_outer) in * end.
+      simpl in Q. destruct Q as (Q1 & Q2).
+      apply IH; [lia | lia | rewrite Hoof, Q2; reflexivity].
+Qed.
+Transparent lg_cycle.
+
+Theorem lgmres_result_spec (A P : vec -> vec) prm (f x0 : vec) st nr r w :
+  k_prologue norm_b prm f = Go nr ->
+  lgmres A P prm f x0 st = (KOk r, w) ->
+  k_it r <= p_maxiter prm /\ k_oof r = false /\
+  k_res r = true_res norm_b A P (p_left prm) f (k_x r) / nr.
+Proof.
+  intro Hp. unfold lgmres. rewrite Hp.
+  match goal with |- context [lg_outer A P prm f ?e nr ?fu x0 ?s0' 0 0 false] =>
+    destruct (lg_outer A P prm f e nr fu x0 s0' 0 0 false) as [r' w'] eqn:E end.
+  intro H; inversion H; subst.
+  eapply lg_outer_spec; [| | | exact E]; [lia | lia | reflexivity].
+Qed.
+
+Theorem lgmres_zero_rhs (A P : vec -> vec) prm (f x0 : vec) st :
+  sltb (norm_b f) eps1 = true -> p_ns prm = false ->
+  fst (lgmres A P prm f x0 st) = KOk (mkRes 0 (norm_b f) (k_clear x0) false).
+Proof. intros H N. unfold lgmres, k_prologue. rewrite H, N. reflexivity. Qed.
 
 End AnyScalar.
 
@@ -1058,6 +1318,215 @@ Proof.
   { unfold bs_inv; simpl. repeat split; auto; discriminate. }
   intro H. apply pair_equal_spec in H as [H1 H2]. injection H1 as H1. rewrite <- H1. simpl.
   rewrite I2. unfold true_res, Rm. destruct (p_left prm); reflexivity.
+Qed.
+
+(* ---- C05-A1: BiCGStab model = textbook BiCGStab (van der Vorst), both sides ---- *)
+Ltac ref_ring := unfold vadd, vsub, vscal; change (@zipw S) with (@vmap2 S);
+                 rewrite ?ip_dot; change (@rdot S) with (@dot S); vec_ring.
+
+Definition Kop (left : bool) (v : vec) : vec := if left then P (A v) else A (P v).
+Definition Yop (left : bool) (v : vec) : vec := if left then v else P v.
+Lemma Kop_len left v : length v = n -> length (Kop left v) = n.
+Proof. intro L. unfold Kop. destruct left; auto. Qed.
+Lemma Yop_len left v : length v = n -> length (Yop left v) = n.
+Proof. intro L. unfold Yop. destruct left; auto. Qed.
+
+(* the part of bs_step after the direction p has been formed *)
+Definition bs_rest (left : bool) (eps : S) (st : bs_st) (p : vec) (rho1 rho2 : S) : option bs_st :=
+  let w := b_ws st in
+  let '(v, T) := pspmv left A P p in
+  let alpha := rho1 / ip (bs_rh w) v in
+  let x := if left then k_axpby alpha p s1 (b_x st) else k_axpby alpha T s1 (b_x st) in
+  let s := k_axpbypcz s1 (bs_r w) (- alpha) v s0 (bs_s w) in
+  let res := norm_a s in
+  if sltb eps res then
+    let '(t, T') := pspmv left A P s in
+    let omega := ip t s / ip t t in
+    if is_zero omega then None
+    else
+      let x' := if left then k_axpby omega s s1 x else k_axpby omega T' s1 x in
+      let r := k_axpbypcz s1 s (- omega) t s0 (bs_r w) in
+      Some (mkBsSt x' (mkBsWs r p v s t (bs_rh w) T') rho1 rho2 alpha omega (norm_a r) false (SS (b_it st)))
+  else
+    Some (mkBsSt x (mkBsWs (bs_r w) p v s (bs_t w) (bs_rh w) T) rho1 rho2 alpha (b_omega st) res false (SS (b_it st))).
+
+Lemma pspmv_KY left (p v T : vec) : pspmv left A P p = (v, T) ->
+  v = Kop left p /\ (if left then p else T) = Yop left p.
+Proof. unfold pspmv, Kop, Yop. destruct left; intro H; inversion H; auto. Qed.
+
+Lemma bs_rest_ref left eps (st : bs_st) (p : vec) rho' rho2 :
+  length p = n -> length (b_x st) = n -> length (bs_r (b_ws st)) = n ->
+  match bs_ref_body (Kop left) (Yop left) eps (bs_rh (b_ws st)) (b_it st) (b_x st) (bs_r (b_ws st)) p rho' with
+  | BsFail => bs_rest left eps st p rho' rho2 = None
+  | BsDone k' res' x' => exists st', bs_rest left eps st p rho' rho2 = Some st' /\
+        b_it st' = k' /\ b_res st' = res' /\ b_x st' = x' /\ sltb eps res' = false /\ b_first st' = false
+  | BsNext x' r' v' al om res' => exists st', bs_rest left eps st p rho' rho2 = Some st' /\
+        b_x st' = x' /\ bs_r (b_ws st') = r' /\ bs_v (b_ws st') = v' /\ bs_p (b_ws st') = p /\
+        bs_rh (b_ws st') = bs_rh (b_ws st) /\ b_rho1 st' = rho' /\ b_alpha st' = al /\ b_omega st' = om /\
+        b_res st' = res' /\ b_it st' = SS (b_it st) /\ b_first st' = false /\
+        length x' = n /\ length r' = n /\ length v' = n
+  end.
+Proof.
+  intros Lp Lx Lr. unfold bs_rest, bs_ref_body. cbv zeta.
+  destruct (pspmv left A P p) as [v T] eqn:Ep. destruct (pspmv_KY left p v T Ep) as (Ev & Ey).
+  assert (Lv : length v = n) by (rewrite Ev; apply Kop_len; exact Lp).
+  assert (Ly : length (Yop left p) = n) by (apply Yop_len; exact Lp).
+  set (alpha := rho' / ip (bs_rh (b_ws st)) v).
+  replace (rho' / rdot (bs_rh (b_ws st)) (Kop left p)) with alpha
+    by (unfold alpha; rewrite <- Ev, ip_dot; reflexivity).
+  assert (Ex : (if left then k_axpby alpha p s1 (b_x st) else k_axpby alpha T s1 (b_x st))
+               = vadd (b_x st) (vscal alpha (Yop left p))).
+  { replace (if left then k_axpby alpha p s1 (b_x st) else k_axpby alpha T s1 (b_x st))
+      with (k_axpby alpha (if left then p else T) s1 (b_x st)) by (destruct left; reflexivity).
+    rewrite Ey, k_axpby_spec by lia. ref_ring. }
+  rewrite Ex, k_axpbypcz_c0.
+  assert (Es : vmap2 (fun xi yi => s1 * xi + - alpha * yi) (bs_r (b_ws st)) v
+               = vsub (bs_r (b_ws st)) (vscal alpha (Kop left p))).
+  { rewrite <- Ev. ref_ring. }
+  rewrite Es, norm_a_rnorm.
+  set (h := vadd (b_x st) (vscal alpha (Yop left p))) in *.
+  set (sv := vsub (bs_r (b_ws st)) (vscal alpha (Kop left p))) in *.
+  assert (Lh : length h = n).
+  { unfold h, vadd, vscal. change (@zipw S) with (@vmap2 S). rewrite vmap2_length, map_length. lia. }
+  assert (Ls : length sv = n).
+  { unfold sv, vsub, vscal. change (@zipw S) with (@vmap2 S). rewrite vmap2_length, map_length, Kop_len by auto. lia. }
+  destruct (sltb eps (rnorm sv)) eqn:E1.
+  - destruct (pspmv left A P sv) as [t T'] eqn:Et. destruct (pspmv_KY left sv t T' Et) as (Evt & Eyt).
+    assert (Lt : length t = n) by (rewrite Evt; apply Kop_len; exact Ls).
+    assert (Ly2 : length (Yop left sv) = n) by (apply Yop_len; exact Ls).
+    set (omega := ip t sv / ip t t).
+    replace (rdot (Kop left sv) sv / rdot (Kop left sv) (Kop left sv)) with omega
+      by (unfold omega; rewrite <- Evt, !ip_dot; reflexivity).
+    destruct (is_zero omega); [reflexivity|].
+    assert (Ex2 : (if left then k_axpby omega sv s1 h else k_axpby omega T' s1 h)
+                  = vadd h (vscal omega (Yop left sv))).
+    { replace (if left then k_axpby omega sv s1 h else k_axpby omega T' s1 h)
+        with (k_axpby omega (if left then sv else T') s1 h) by (destruct left; reflexivity).
+      rewrite Eyt, k_axpby_spec by lia. ref_ring. }
+    rewrite Ex2, k_axpbypcz_c0.
+    assert (Er2 : vmap2 (fun xi yi => s1 * xi + - omega * yi) sv t = vsub sv (vscal omega (Kop left sv))).
+    { rewrite <- Evt. ref_ring. }
+    rewrite Er2, norm_a_rnorm.
+    eexists. split; [reflexivity|]. cbn [b_x b_ws bs_r bs_v bs_p bs_rh b_rho1 b_alpha b_omega b_res b_it b_first].
+    repeat split; auto.
+    + unfold vadd, vscal. change (@zipw S) with (@vmap2 S). rewrite vmap2_length, map_length. lia.
+    + unfold vsub, vscal. change (@zipw S) with (@vmap2 S). rewrite vmap2_length, map_length, Kop_len by auto. lia.
+    + rewrite <- Ev. exact Lv.
+  - eexists. split; [reflexivity|]. cbn [b_x b_res b_it b_first]. repeat split; auto.
+Qed.
+
+Lemma bs_step_unfold left eps (st : bs_st) :
+  bs_step A P left eps st =
+  match (if b_first st then Some (bs_r (b_ws st))
+         else if is_zero (b_rho1 st) then None
+         else let beta := (ip (bs_r (b_ws st)) (bs_rh (b_ws st)) * b_alpha st) / (b_rho1 st * b_omega st) in
+              Some (k_axpbypcz s1 (bs_r (b_ws st)) (- beta * b_omega st) (bs_v (b_ws st)) beta (bs_p (b_ws st)))) with
+  | None => None
+  | Some p => bs_rest left eps st p (ip (bs_r (b_ws st)) (bs_rh (b_ws st))) (b_rho1 st)
+  end.
+Proof. reflexivity. Qed.
+
+Lemma bs_loop_stop left ca eps fuel (st : bs_st) :
+  sltb eps (b_res st) = false -> b_first st = false -> bs_loop A P left ca eps fuel st = Some st.
+Proof. intros H1 H2. destruct fuel; simpl; [reflexivity|]. rewrite H1, H2. reflexivity. Qed.
+
+Definition bs_obs (o : option bs_st) : option (nat * S * vec) :=
+  match o with Some st => Some (b_it st, b_res st, b_x st) | None => None end.
+
+Lemma bs_loop_ref left ca eps fuel : forall st : bs_st,
+  b_first st = false ->
+  length (b_x st) = n -> length (bs_r (b_ws st)) = n -> length (bs_p (b_ws st)) = n -> length (bs_v (b_ws st)) = n ->
+  bs_obs (bs_loop A P left ca eps fuel st) =
+  bs_ref_loop (Kop left) (Yop left) eps (bs_rh (b_ws st)) fuel (b_it st) (b_x st) (bs_r (b_ws st))
+              (bs_p (b_ws st)) (bs_v (b_ws st)) (b_rho1 st) (b_alpha st) (b_omega st) (b_res st).
+Proof.
+  induction fuel as [|k IH]; intros st Fi Lx Lr Lp Lv; simpl; [reflexivity|].
+  rewrite Fi. simpl. rewrite Bool.orb_false_r.
+  destruct (sltb eps (b_res st)) eqn:Eg; [|reflexivity].
+  rewrite bs_step_unfold, Fi.
+  destruct (is_zero (b_rho1 st)); [reflexivity|]. cbv zeta.
+  set (rho' := ip (bs_r (b_ws st)) (bs_rh (b_ws st))).
+  replace (rdot (bs_r (b_ws st)) (bs_rh (b_ws st))) with rho' by (unfold rho'; rewrite ip_dot; reflexivity).
+  set (beta := rho' * b_alpha st / (b_rho1 st * b_omega st)).
+  assert (Epp : k_axpbypcz s1 (bs_r (b_ws st)) (- beta * b_omega st) (bs_v (b_ws st)) beta (bs_p (b_ws st))
+              = vadd (bs_r (b_ws st)) (vscal beta (vsub (bs_p (b_ws st)) (vscal (b_omega st) (bs_v (b_ws st)))))).
+  { rewrite k_axpbypcz_spec by lia. ref_ring. }
+  rewrite Epp. set (p' := vadd (bs_r (b_ws st)) (vscal beta (vsub (bs_p (b_ws st)) (vscal (b_omega st) (bs_v (b_ws st)))))).
+  assert (Lp' : length p' = n).
+  { unfold p', vadd, vsub, vscal. change (@zipw S) with (@vmap2 S).
+    rewrite vmap2_length, map_length, vmap2_length, map_length. lia. }
+  pose proof (bs_rest_ref left eps st p' rho' (b_rho1 st) Lp' Lx Lr) as B.
+  destruct (bs_ref_body (Kop left) (Yop left) eps (bs_rh (b_ws st)) (b_it st) (b_x st) (bs_r (b_ws st)) p' rho')
+    as [|k' res' x'|x' r' v' al om res'].
+  - rewrite B. reflexivity.
+  - destruct B as (st' & E & B1 & B2 & B3 & B4 & B5). rewrite E.
+    rewrite (bs_loop_stop left ca eps k st') by (try rewrite B2; assumption).
+    simpl. rewrite B1, B2, B3. reflexivity.
+  - destruct B as (st' & E & B1 & B2 & B3 & B4 & B5 & B6 & B7 & B8 & B9 & B10 & B11 & L1 & L2 & L3). rewrite E.
+    rewrite (IH st') by (try rewrite B1; try rewrite B2; try rewrite B3; try rewrite B4; auto).
+    rewrite B1, B2, B3, B4, B5, B6, B7, B8, B9, B10. reflexivity.
+Qed.
+
+Theorem bicgstab_model_is_ref prm (f x0 : vec) junk :
+  length f = n -> length x0 = n ->
+  fst (bicgstab A P prm f x0 junk) =
+  out_of_ref (bicgstab_ref A P (p_left prm) (p_maxiter prm) (p_tol prm) (p_abstol prm) (p_ns prm) (p_ca prm) f x0).
+Proof.
+  intros Lf Lx. unfold bicgstab, bicgstab_ref, with_rhs, k_prologue.
+  rewrite <- norm_a_rnorm, <- eps1_rtiny.
+  change (fun v : vec => if p_left prm then P (A v) else A (P v)) with (Kop (p_left prm)).
+  change (fun v : vec => if p_left prm then v else P v) with (Yop (p_left prm)).
+  assert (G : forall nr,
+    fst (let '(eps, st0) := bs_init A P prm nr f x0 junk in
+         match bs_loop A P (p_left prm) (p_ca prm) eps (p_maxiter prm) st0 with
+         | None => (KExc, junk)
+         | Some st => (KOk (mkRes (b_it st) (b_res st / nr) (b_x st) false), b_ws st)
+         end) =
+    out_of_ref
+      (let eps := smax (nr * p_tol prm) (p_abstol prm) in
+       let r0 := if p_left prm then P (vsub f (A x0)) else vsub f (A x0) in
+       let res0 := rnorm r0 in
+       let fin := fun o : option (nat * S * vec) =>
+                    match o with Some (k, res, x) => Some (k, res / nr, x) | None => None end in
+       match p_maxiter prm with
+       | O => Some (0, res0 / nr, x0)
+       | SS fl =>
+         if sltb eps res0 || p_ca prm then
+           match bs_ref_body (Kop (p_left prm)) (Yop (p_left prm)) eps r0 0 x0 r0 r0 (rdot r0 r0) with
+           | BsFail => None
+           | BsDone k res x => Some (k, res / nr, x)
+           | BsNext x r v alpha omega res =>
+             fin (bs_ref_loop (Kop (p_left prm)) (Yop (p_left prm)) eps r0 fl 1 x r r0 v (rdot r0 r0) alpha omega res)
+           end
+         else Some (0, res0 / nr, x0)
+       end)).
+  { intro nr. unfold bs_init. cbv zeta. rewrite !residual_ref, norm_a_rnorm.
+    set (eps := smax (nr * p_tol prm) (p_abstol prm)).
+    set (r0 := if p_left prm then P (vsub f (A x0)) else vsub f (A x0)).
+    assert (Lr0 : length r0 = n).
+    { unfold r0. rewrite <- residual_ref. destruct (p_left prm); [apply P_len|]; apply k_residual_len; auto. }
+    destruct (p_maxiter prm) as [|fl]; [reflexivity|].
+    simpl bs_loop. cbn [b_res b_first]. simpl andb.
+    destruct (sltb eps (rnorm r0) || p_ca prm); [|reflexivity].
+    rewrite bs_step_unfold. cbn [b_first b_ws bs_r bs_rh b_rho1].
+    match goal with |- context [bs_rest ?l ?e ?st ?p ?r1 ?r2] =>
+      pose proof (bs_rest_ref l e st p r1 r2 Lr0 Lx Lr0) as B; cbn [b_ws bs_rh b_it b_x bs_r] in B;
+      set (rest := bs_rest l e st p r1 r2) in * end.
+    replace (rdot r0 r0) with (ip r0 r0) by (rewrite ip_dot; reflexivity).
+    destruct (bs_ref_body (Kop (p_left prm)) (Yop (p_left prm)) eps r0 0 x0 r0 r0 (ip r0 r0))
+      as [|k' res' x'|x' r' v' al om res'].
+    - rewrite B. reflexivity.
+    - destruct B as (st' & E & B1 & B2 & B3 & B4 & B5). rewrite E.
+      rewrite (bs_loop_stop (p_left prm) (p_ca prm) eps fl st') by (try rewrite B2; assumption).
+      simpl. rewrite B1, B2, B3. reflexivity.
+    - destruct B as (st' & E & B1 & B2 & B3 & B4 & B5 & B6 & B7 & B8 & B9 & B10 & B11 & L1 & L2 & L3). rewrite E.
+      pose proof (bs_loop_ref (p_left prm) (p_ca prm) eps fl st' B11
+                    ltac:(rewrite B1; exact L1) ltac:(rewrite B2; exact L2) ltac:(rewrite B4; exact Lr0) ltac:(rewrite B3; exact L3)) as R.
+      rewrite B1, B2, B3, B4, B5, B6, B7, B8, B9, B10 in R. cbn [bs_rh b_ws b_it] in R.
+      rewrite <- R. destruct (bs_loop A P (p_left prm) (p_ca prm) eps fl st'); reflexivity. }
+  destruct (sltb (norm_a f) eps1).
+  - destruct (p_ns prm); [apply G | reflexivity].
+  - apply G.
 Qed.
 
 End RingLaws.
